@@ -54,6 +54,42 @@ def run(rep, tier, seed):
         check_group(rep, g, seed)
 
 
+def concrete_input(c, g, model, norm_of):
+    """an input realising the solver's squared norms: a valid element with its rotation part scaled by sqrt(n)"""
+    import random
+    import mpmath as mp
+    from engine import vc
+    lo, hi = ROT_SLOT[g]
+    rng = random.Random(7)
+    vals = {}
+    for i in c.inputs:
+        names = i.names()
+        if i.kind == "G":
+            xs = vc.sample_group(g, rng, 0)
+            m = model.get(norm_of.get(i.prefix)) if model else None
+            if m is not None:
+                s = mp.sqrt(mp.mpf(m.numerator) / mp.mpf(m.denominator))
+                xs = [x * s if lo <= k < hi else x for k, x in enumerate(xs)]
+        else:
+            xs = [mp.mpf(rng.uniform(-1, 1)) for _ in names]
+            for k, n in enumerate(names):
+                m = model.get(n) if model else None
+                if m is not None:
+                    xs[k] = mp.mpf(m.numerator) / mp.mpf(m.denominator)
+        for n, x in zip(names, xs):
+            vals[n] = x
+    rp = c.make_replay(vals)
+    no = rp.get("native_outputs") or {}
+    bad = bool(rp.get("native_thrown"))
+    if "out" in no:
+        y = no["out"]
+        dev = abs(sum(v * v for v in y[lo:hi]) - 1.0)
+        rp["native_result_sqnorm_deviation"] = dev
+        bad = bad or dev > float(EPS)
+    rp["failing_input_reproduced"] = bad
+    return rp
+
+
 def check_group(rep, g, seed):
     lo, hi = ROT_SLOT[g]
     HARNESS.prefetch(g, [o for o, _ in OPS])
@@ -68,6 +104,7 @@ def check_group(rep, g, seed):
             alg = c.alg
             # norm variables for the group inputs
             norm_names = []
+            norm_of = {}
             for i in c.inputs:
                 if i.kind == "G":
                     nm = alg.new_gen(("free", i.prefix + "_sqnorm"))
@@ -77,6 +114,7 @@ def check_group(rep, g, seed):
                     alg.gen_atom[nm] = (Atom("normvar", (nm,), (sq,)), "normvar")
                     alg.add_relation(sq - alg.gen[nm])
                     norm_names.append(nm)
+                    norm_of[i.prefix] = nm
             z = smt.Z3Ctx(alg, 15000)
             dec = z.decisions(path)
             facts = []
@@ -94,7 +132,7 @@ def check_group(rep, g, seed):
                 elif r == "sat":
                     rep.fail(nm, "INEQ", "z3", {"path": path.key, "thrown": path.thrown,
                                                 "model": {k: str(v) for k, v in (model or {}).items() if v is not None}},
-                             {"failing_input_reproduced": False, "note": "an input satisfying the invariant reaches a throwing path"}, dt)
+                             concrete_input(c, g, model, norm_of), dt)
                 else:
                     rep.standin(nm, "INEQ", "z3-unknown", {"path": path.key, "thrown": path.thrown})
                 continue
@@ -113,7 +151,7 @@ def check_group(rep, g, seed):
             elif r == "sat":
                 rep.fail(nm, "INEQ", "nf+z3", {"path": path.key, "squared_norm_of_result": str(N)[:300],
                                                "model": {k: str(v) for k, v in (model or {}).items() if v is not None}},
-                         {"failing_input_reproduced": False}, dt)
+                         concrete_input(c, g, model, norm_of), dt)
             else:
                 rep.standin(nm, "INEQ", "z3-unknown", {"path": path.key, "squared_norm_of_result": str(N)[:200]})
         if nfeas == 0:
